@@ -218,6 +218,15 @@ package leveldb
 //@   ensures [C10:handoff-iff-overflow] sentv(db.writeMergedC, false) == old(sentv(db.writeMergedC, false)) + (overflow ? 1 : 0)
 //@   ensures [C10:no-merged-reply-here] sentv(db.writeMergedC, true) == old(sentv(db.writeMergedC, true))
 
+// C09 (no call spins forever): the write throttle retries; a retry that has not waited for a compaction to finish is
+// the one-millisecond slowdown, and it is taken at most once per write (it flips `delayed`), so the retry loop of
+// flush cannot spin on it while holding the write lock.
+//@ count (*DB).compTriggerWait
+//@ func (*DB).flush$1
+//@   props C09
+//@   safety off
+//@   ensures [C09:a-retry-without-waiting-for-a-compaction-happens-only-once] (result && calls("(*DB).compTriggerWait") == old(calls("(*DB).compTriggerWait"))) ==> (delayed && !old(delayed))
+
 //@ func (*DB).writeLocked
 //@   props C09 C10
 //@   requires held(db.writeLockC) >= 1
@@ -1327,21 +1336,21 @@ package leveldb
 // tables the entry with the highest sequence number wins; at a deeper level the first table holding the user key
 // decides and stops the walk; a table without the user key changes nothing and lets the walk go on.
 //@ func (*version).get$1
-//@   props C01
+//@   props C01 C19
 //@   abstract keys
 //@   safety off
-//@   guarantees [C01:other-keys-change-nothing] (result && ferr == nil) ==> ((kcmp(ukey, fukey) != 0) ==> (zfound == old(zfound) && zseq == old(zseq) && zkt == old(zkt) && err == old(err)))
-//@   guarantees [C01:level-0-keeps-the-newest] (ferr == nil) ==> ((fkerr == nil && kcmp(ukey, fukey) == 0 && level <= 0) ==> (result && zseq >= old(zseq) && zseq >= fseq && (fseq >= old(zseq) ==> zfound) && (fseq >= old(zseq) ==> (zseq == fseq && zkt == fkt)) && (fseq < old(zseq) ==> (zseq == old(zseq) && zkt == old(zkt) && zfound == old(zfound)))))
-//@   guarantees [C01:deeper-level-first-hit-decides] (ferr == nil) ==> ((fkerr == nil && kcmp(ukey, fukey) == 0 && level > 0) ==> (!result && (fkt == keyTypeVal ==> err == nil) && (fkt == keyTypeDel ==> err == old(err))))
-//@   guarantees [C01:table-error-stops-the-walk] (ferr != nil && ferr != ErrNotFound) ==> (!result && err == ferr)
+//@   guarantees [C01,C19:other-keys-change-nothing] (result && ferr == nil) ==> ((kcmp(ukey, fukey) != 0) ==> (zfound == old(zfound) && zseq == old(zseq) && zkt == old(zkt) && err == old(err)))
+//@   guarantees [C01,C19:level-0-keeps-the-newest] (ferr == nil) ==> ((fkerr == nil && kcmp(ukey, fukey) == 0 && level <= 0) ==> (result && zseq >= old(zseq) && zseq >= fseq && (fseq >= old(zseq) ==> zfound) && (fseq >= old(zseq) ==> (zseq == fseq && zkt == fkt)) && (fseq < old(zseq) ==> (zseq == old(zseq) && zkt == old(zkt) && zfound == old(zfound)))))
+//@   guarantees [C01,C19:deeper-level-first-hit-decides] (ferr == nil) ==> ((fkerr == nil && kcmp(ukey, fukey) == 0 && level > 0) ==> (!result && (fkt == keyTypeVal ==> err == nil) && (fkt == keyTypeDel ==> err == old(err))))
+//@   guarantees [C01,C19:table-error-stops-the-walk] (ferr != nil && ferr != ErrNotFound) ==> (!result && err == ferr)
 // Callback 2 runs after each level: a level-0 hit ends the lookup with the winner's value or, for a deletion
 // marker, with not-found.
 //@ func (*version).get$2
-//@   props C01
+//@   props C01 C19
 //@   abstract keys
 //@   safety off
-//@   ensures [C01:level-0-winner-ends-the-lookup] old(zfound) ==> (!result && (zkt == keyTypeVal ==> err == nil) && (zkt == keyTypeDel ==> err == old(err)))
-//@   ensures [C01:no-hit-goes-deeper] !old(zfound) ==> (result && err == old(err))
+//@   ensures [C01,C19:level-0-winner-ends-the-lookup] old(zfound) ==> (!result && (zkt == keyTypeVal ==> err == nil) && (zkt == keyTypeDel ==> err == old(err)))
+//@   ensures [C01,C19:no-hit-goes-deeper] !old(zfound) ==> (result && err == old(err))
 
 // C20 on the same callbacks: the value version.get hands out is only ever one that tOps.find returned (a private
 // copy) - directly, or through the level-0 candidate zval.
